@@ -38,9 +38,9 @@ def config(tier):
 def plan(tier, seed):
   q = tier == 'quick'
   jobs = []
-  for kind, n in (('separated', 10 if q else 200), ('limits', 12 if q else 240),
-                  ('push', 10 if q else 200), ('resting', 6 if q else 100),
-                  ('rebound', 6 if q else 100)):
+  for kind, n in (('separated', 10 if q else 120), ('limits', 12 if q else 144),
+                  ('push', 10 if q else 120), ('resting', 6 if q else 60),
+                  ('rebound', 6 if q else 60)):
     for i in range(n):
       jobs.append({'kind': kind, 'seed': seed, 'idx': i})
   # long histories first
@@ -49,7 +49,7 @@ def plan(tier, seed):
 
 
 def floors(tier):
-  k = 1 if tier == 'quick' else 20
+  k = 1 if tier == 'quick' else 10
   f = {}
   for p in ('generalized', 'spring', 'positional'):
     f['ev:separated_equals_no_collision:' + p] = 6 * k
